@@ -961,6 +961,41 @@ def eval_term(t, env_of):
     return None
 
 
+def _apply_closure(fn, t, env_of, depth_guard):
+    """the single definite variant (`('V', name, (None,))`) a closure handed to `x.and_then(closure)` returns under env_of, or None"""
+    if depth_guard[0] >= 2:
+        return None
+    a0 = origin(fn, t["args"][0])
+    cids = closures_in_term(origin(fn, t["args"][1]))
+    if len(cids) != 1:
+        return None
+    cl = fn.facts.fns.get(cids[0])
+    if cl is None:
+        return None
+    ct = origin(fn, t["args"][1])
+    while ct[0] in ("ref", "deref", "cast"):
+        ct = ct[1]
+    caps = list(ct[2]) if ct[0] == "agg" else []
+    payload = ("field", ("field", a0, "as Ok"), ".0")
+
+    def env2(tt):
+        tt2 = subst_upvars(tt, caps) if caps else tt
+        tt2 = subst_params(tt2, [("self_closure",), payload])
+        return env_of(tt2)
+    saved = (getattr(explore_under, "captured", None), getattr(explore_under, "returned", None), getattr(explore_under, "undecided", None))
+    depth_guard[0] += 1
+    try:
+        explore_under(cl, env2, limit=2000)
+        rets = [st.get(0) for (_b, st) in explore_under.returned]
+    finally:
+        depth_guard[0] -= 1
+        explore_under.captured, explore_under.returned, explore_under.undecided = saved
+    names = {r[1] if isinstance(r, tuple) and r[0] == "V" else None for r in rets}
+    if len(names) == 1 and None not in names:
+        return ("V", names.pop(), (None,))
+    return None
+
+
 def explore_under(fn, env_of, limit=4000, avoid=(), capture=(), reset_at=()):
     """(return blocks reached, blocks visited) by abstract execution from the entry: values of locals are tracked *along the
     path* (constants, plain copies, and whatever `eval_term` decides for a right-hand side or a call result under the
@@ -971,6 +1006,9 @@ def explore_under(fn, env_of, limit=4000, avoid=(), capture=(), reset_at=()):
     undecided = set()
     captured = []
     returned = []
+    depth_guard = getattr(explore_under, "_depth", None)
+    if depth_guard is None:
+        depth_guard = explore_under._depth = [0]
     stack = [(0, {})]
     n = 0
 
@@ -1060,6 +1098,24 @@ def explore_under(fn, env_of, limit=4000, avoid=(), capture=(), reset_at=()):
                     v = (av[0] == "Some") == (fnm == "is_some")
                 elif fnm == "not" and av and isinstance(av[0], bool):
                     v = not av[0]
+                elif fnm in ("ok_or", "ok_or_else") and av and av[0] in ("Some", "None"):
+                    v = ("V", "Ok", (None,)) if av[0] == "Some" else ("V", "Err", (None,))
+                elif fnm in ("ok_or", "ok_or_else") and av and isinstance(av[0], tuple) and av[0][0] == "V" and av[0][1] in ("Some", "None"):
+                    v = ("V", "Ok", av[0][2]) if av[0][1] == "Some" else ("V", "Err", (None,))
+                elif fnm in ("map_err", "or_else", "inspect_err") and av and isinstance(av[0], tuple) and av[0][0] == "V" and av[0][1] == "Ok":
+                    v = av[0]
+                elif fnm in ("map_err",) and av and isinstance(av[0], tuple) and av[0][0] == "V" and av[0][1] == "Err":
+                    v = ("V", "Err", (None,))
+                elif fnm in ("map", "and_then", "inspect") and av and isinstance(av[0], tuple) and av[0][0] == "V" and av[0][1] in ("Err", "None"):
+                    v = av[0]
+                elif fnm == "map" and av and isinstance(av[0], tuple) and av[0][0] == "V" and av[0][1] in ("Ok", "Some"):
+                    v = ("V", av[0][1], (None,))
+                elif fnm == "and_then" and len(av) == 2 and isinstance(av[0], tuple) and av[0][0] == "V" and av[0][1] in ("Ok", "Some"):
+                    # the closure decides: run it under the same environment, its parameter bound to the payload
+                    v = _apply_closure(fn, t, env_of, depth_guard)
+                elif fnm == "from_residual":
+                    # the value `?` returns early with: an Err / None - never one that a later `?` lets through
+                    v = ("V", "Err", (None,))
                 elif fnm == "branch" and av and isinstance(av[0], tuple) and av[0][0] == "V":
                     # `?` on a tracked Result / Option
                     v = ("V", "Continue", av[0][2]) if av[0][1] in ("Ok", "Some") else ("V", "Break", (None,))
